@@ -11,6 +11,20 @@ CHECKS = {
          "the mirrored side of a closed face is closed. Tie: leaves regenerated from the source each run + lock step of the kernel model.",
          "Coq proof over regenerated leaves + kernel model; lock-step correspondence; brute-force mirror oracle", "6 C08"),
 }
+CHECKS.update({
+ "C11": ("proof", "Theorems about the kernel model for every state: a rejected or deduplicated call returns the same state (all components); the face check accepts exactly "
+         "closed loops; the cell check (sort/adjacent_find/unique-by-edge) accepts exactly non-empty lists in which every halfedge occurs once and its opposite once; add_edge "
+         "returns an existing live edge between the vertices iff one exists (cache path under exactness of that cache); accepted calls append exactly one entity. Tie: lock step incl. malformed stream.",
+         "Coq proof over the kernel model; lock-step correspondence; brute-force construction oracle", "6 C11"),
+ "C03": ("proof", "Theorem for EVERY history: every flag array and every property array has one element per entity slot (induction over arbitrary operation lists; found the clear() defect, fixed). "
+         "Per-slot laws of resize/delete/swap notifications incl. half-entity sides; swaps move values with definitions and flags in every mode; growth appends defaults. "
+         "Tie: lock step on every property array with 6 value types; token oracle.",
+         "Coq invariant by induction over histories + slot laws; lock-step correspondence; token oracle", "6 C03"),
+ "C17": ("proof", "Theorems: self swap is the identity; in every mode the two slots of definitions/flags/properties (half-entities pairwise) are exchanged and nothing of another kind changes; "
+         "for the linear-scan implementation the result is exactly the relabeled state and swapping twice restores the exact state in every reachable state. The relabeling of stored "
+         "definitions of deferred-deleted entities is refuted with a witness (known finding D13). Tie: lock step on swap-heavy histories; relabeling oracle.",
+         "Coq proof (relabeling, involution) + refutation witness; lock-step correspondence; relabeling oracle", "6 C17"),
+})
 NOT_YET = {}
 def main():
     props = [json.loads(l)["id"] for l in open(os.path.join(VERIF, "properties.jsonl"))]
